@@ -409,7 +409,12 @@ func c14Library(c *run.Check) {
 			return
 		}
 		if len(p1) != len(p2) {
-			c.Violation(c14Replay{Scenario: sc, Detail: "non-deterministic replay"}, fmt.Sprintf("HARNESS: scenario %q is not deterministic under the scheduler (%d vs %d points)", sc.Name, len(p1), len(p2)))
+			// not a property violation: the scenario cannot be replayed, so its
+			// schedules cannot be enumerated (results were still compared above)
+			mu.Lock()
+			c.Set(fmt.Sprintf("scenario_%d_not_replayable", i), fmt.Sprintf("the same schedule gave %d and %d scheduling points: evaluation is not a deterministic function of its inputs; schedule enumeration skipped", len(p1), len(p2)))
+			mu.Unlock()
+			c.Exhaustive = false
 			return
 		}
 		// read-only audit: full fingerprint of everything shared at EVERY scheduling
@@ -457,11 +462,23 @@ func c14Library(c *run.Check) {
 			c.Evaluations.Add(int64(ex.Executions))
 			c.Traces.Add(int64(ex.Executions))
 		}
+		if strings.HasPrefix(ex.Violation, "HARNESS:") {
+			mu.Lock()
+			c.Set(fmt.Sprintf("scenario_%d_exploration_problem", i), ex.Violation)
+			mu.Unlock()
+			c.Exhaustive = false
+			return
+		}
 		if ex.Violation != "" {
 			// believe a failure only if it reproduces from its recorded schedule
 			_, again, _ := c14RunOnce(newC14World(sc), sc, serial, ex.Schedule, true)
 			if again == "" {
-				c.Violation(c14Replay{Scenario: sc, Schedule: ex.Schedule, Detail: "did not reproduce"}, "HARNESS: violation did not reproduce from its schedule: "+ex.Violation)
+				// not believed, not reported as a violation; the run is marked non-exhaustive
+				mu.Lock()
+				c.Set(fmt.Sprintf("scenario_%d_unreproducible_verdict", i), ex.Violation)
+				mu.Unlock()
+				c.Exhaustive = false
+				fmt.Println("note: a verdict did not reproduce from its recorded schedule and is not reported:", ex.Violation)
 				return
 			}
 			c.Violation(c14Replay{Scenario: sc, Schedule: ex.Schedule, Detail: ex.Violation}, fmt.Sprintf("scenario %q, schedule %v: %s", sc.Name, compactSchedule(ex.Schedule), ex.Violation))
